@@ -82,7 +82,8 @@ func appendWire(ser []byte, b m.Block, trick string, n uint64) ([]byte, error) {
 }
 
 func checkC02(c C02Case, rec *obs.Recorder) *obs.Violation {
-	T, pub, err := mkToken(c.Token, c.RootSeed, c.Reload)
+	// wire-level appends use the default symbol offsets: those parents keep the default base table
+	T, pub, err := mkTokenOpt(c.Token, c.RootSeed, c.Reload, c.Wire == "")
 	if err != nil {
 		return obs.Violf("%s: cannot build token: %v", scenarioText(c.Token, c.Authz), err)
 	}
